@@ -20,6 +20,8 @@ pub struct Ctl {
     pub callback: Option<Arc<dyn Fn() + Send + Sync>>,
     /// number of upcoming size queries (`len`) on file handles that fail
     pub fail_len: usize,
+    /// opening (read-only) a path containing this string fails with PermissionDenied; empty = off
+    pub fail_open: String,
 }
 
 #[derive(Clone)]
@@ -43,6 +45,9 @@ impl FaultFs {
         let mut c = self.ctl.lock().unwrap();
         c.callback_path = path_contains.to_string();
         c.callback = Some(cb);
+    }
+    pub fn fail_open(&self, path_contains: &str) {
+        self.ctl.lock().unwrap().fail_open = path_contains.to_string();
     }
     pub fn fail_next_len(&self, n: usize) {
         self.ctl.lock().unwrap().fail_len = n;
@@ -145,6 +150,13 @@ impl FileSystem for FaultFs {
         self.inner.list_dir(path)
     }
     fn open_file(&self, path: &Path) -> Result<Box<dyn ReadonlyRandomAccessFile>> {
+        {
+            let mut c = self.ctl.lock().unwrap();
+            if !c.fail_open.is_empty() && path.to_string_lossy().contains(&c.fail_open) {
+                c.failures += 1;
+                return Err(Error::new(ErrorKind::PermissionDenied, "injected fault (open)"));
+            }
+        }
         self.inner.open_file(path)
     }
     fn rename(&self, from: &Path, to: &Path) -> Result<()> {
